@@ -319,6 +319,9 @@ fn setup_cases(rng: &mut Rng, ncases: usize) {
     // every fourth case: different numbers of signal and idler steps (products that are and are not perfect squares)
     let shapes = [(4usize, 9usize), (3, 5), (9, 4), (2, 8), (5, 7), (1, 4), (6, 6), (2, 3)];
     let (nx, ny) = if case % 4 == 3 { shapes[(case / 4) % shapes.len()] } else { (n, n) };
+    // a square shape from the table (6, 6) is a square range with THAT side: the side drawn above is replaced, so that
+    // the reported step counts are always the ones of the range the amplitudes are sampled on
+    let n = if nx == ny { nx } else { n };
     let range: FrequencySpace = if nx != ny {
       let st = spdc.optimum_range(n).as_steps();
       FrequencySpace::new((st.0 .0, st.0 .1, nx), (st.1 .0, st.1 .1, ny))
@@ -332,6 +335,8 @@ fn setup_cases(rng: &mut Rng, ncases: usize) {
       spdc.optimum_range(n)
     };
     let st = range.as_steps();
+    // report the step counts of the range itself, never a separately kept copy
+    let (nx, ny) = (st.0 .2, st.1 .2);
     let integrator = Integrator::default();
     let sp = spdc.joint_spectrum(integrator);
     let amps = sp.jsa_range(range);
